@@ -2,7 +2,7 @@
   HidiProofs.EngineSimBase — list / association-list / receiver lemmas used by the simulation
   proof between the device model (`Hidi.Engine`) and the trace monitors (`Hidi.Spec`).
 -/
-import Hidi
+import Hidi.SpecAxis
 namespace Hidi.EngineSim
 open Hidi Hidi.Spec
 
